@@ -158,7 +158,7 @@ theorem pullAllField_touch (spec : Val) (fs : Fields) (field : String) (value d'
   · rw [splitDots_cons] at h
     refine withSubdoc_doc_touch _ _ _ _ _ _ fs d' ?_ h
     intro d'' h'
-    simp only at h'
+    simp only [pullAllAt] at h'
     split at h'
     · obtain ⟨s, rfl⟩ := bind_pure_ok h'
       exact ⟨_, rfl, .inr (.inl ⟨_, rfl⟩)⟩
@@ -254,16 +254,23 @@ theorem pullAll_missing_noop (spec d : Val) (field : String) (value d' : Val)
     intro parent last r hp hr
     cases parent with
     | doc ps =>
-      simp only [getPath_single_doc_none hp] at hr
+      simp only [pullAllAt, getPath_single_doc_none hp] at hr
       cases hr; rfl
-    | arr xs => simp [unmodelled] at hr
-    | str p =>
-      simp only at hr
+    | arr xs =>
+      simp only [pullAllAt] at hr
       split at hr
-      · cases hr
+      · split at hr
+        · rename_i i hpy
+          split at hr
+          · cases hr; rfl
+          · rename_i hneg
+            split at hr
+            · rename_i cur hx
+              simp [getPath, hpy, hneg, hx] at hp
+            · cases hr; rfl
+        · cases hr
       · cases hr; rfl
-    | null => cases hr; rfl
-    | _ => simp at hr
+    | _ => simp only [pullAllAt] at hr; cases hr; rfl
 
 theorem pushField_touch (spec : Val) (fs : Fields) (field : String) (value d' : Val)
     (h : pushField spec (.doc fs) field value = .ok d') :
